@@ -7,6 +7,8 @@ import (
 	"flag"
 	"fmt"
 	"os"
+	"os/exec"
+	"path/filepath"
 	"runtime/debug"
 	"sort"
 	"strings"
@@ -128,6 +130,10 @@ type mutantSpec struct {
 	Description string       `json:"description"`
 	Expect      string       `json:"expect"`
 	Edits       []mutantEdit `json:"edits"`
+	// Patch names a unified diff (relative to the mutant file) applied to copies
+	// of the touched files in a temporary directory; used for the seeded changes
+	// kept under /verif/seeded.
+	Patch string `json:"patch,omitempty"`
 }
 
 func loadMutant(path string) (map[string][]byte, error) {
@@ -140,6 +146,11 @@ func loadMutant(path string) (map[string][]byte, error) {
 		return nil, err
 	}
 	ov := map[string][]byte{}
+	if m.Patch != "" {
+		if err := applyPatchOverlay(filepath.Join(filepath.Dir(path), m.Patch), ov); err != nil {
+			return nil, err
+		}
+	}
 	for _, e := range m.Edits {
 		fn := repoRoot() + "/" + e.File
 		src, ok := ov[fn]
@@ -155,6 +166,56 @@ func loadMutant(path string) (map[string][]byte, error) {
 		ov[fn] = []byte(strings.Replace(string(src), e.Old, e.New, 1))
 	}
 	return ov, nil
+}
+
+// applyPatchOverlay applies a unified diff to copies of the files it touches
+// (never to /repo) and returns the patched contents as an overlay.
+func applyPatchOverlay(patch string, ov map[string][]byte) error {
+	b, err := os.ReadFile(patch)
+	if err != nil {
+		return err
+	}
+	var files []string
+	for _, l := range strings.Split(string(b), "\n") {
+		if strings.HasPrefix(l, "+++ b/") {
+			files = append(files, strings.TrimSpace(strings.TrimPrefix(l, "+++ b/")))
+		}
+	}
+	if len(files) == 0 {
+		return fmt.Errorf("no files in patch %s", patch)
+	}
+	tmp, err := os.MkdirTemp("", "syslcheck-patch-")
+	if err != nil {
+		return err
+	}
+	defer os.RemoveAll(tmp)
+	for _, f := range files {
+		src, err := os.ReadFile(filepath.Join(repoRoot(), f))
+		if err != nil {
+			return fmt.Errorf("context changed: %v", err)
+		}
+		if err := os.MkdirAll(filepath.Dir(filepath.Join(tmp, f)), 0o755); err != nil {
+			return err
+		}
+		if err := os.WriteFile(filepath.Join(tmp, f), src, 0o644); err != nil {
+			return err
+		}
+	}
+	abs, _ := filepath.Abs(patch)
+	cmd := exec.Command("git", "apply", "--whitespace=nowarn", abs)
+	cmd.Dir = tmp
+	cmd.Env = append(os.Environ(), "GIT_DIR=/nonexistent", "GIT_CEILING_DIRECTORIES="+filepath.Dir(tmp))
+	if out, err := cmd.CombinedOutput(); err != nil {
+		return fmt.Errorf("context changed: patch does not apply: %s", strings.TrimSpace(string(out)))
+	}
+	for _, f := range files {
+		nb, err := os.ReadFile(filepath.Join(tmp, f))
+		if err != nil {
+			return err
+		}
+		ov[filepath.Join(repoRoot(), f)] = nb
+	}
+	return nil
 }
 
 func runOne(d *propDef, tier string, prog *Program, tables *Tables, overlay map[string][]byte) (rc int) {
